@@ -7,6 +7,9 @@ database / solve Lambert problems for the hypothesis states are replaced by the 
 the announced alphabet and depth is explored as a tree (snapshots by pickle); after every predict and every update the
 whole state of the real filter is compared with an independent reference (``verif/oracles/c18_mmae.py``: per-model
 linear Kalman filter, Bayes rule in log space, moment matching, pruning / closure as the property words them).
+A second lattice family enumerates the observation SET of each step (1, 2, 3 radar observations from different
+sensors, radar + optical in both orders, radar / optical / radar, optical only) at the step that opens MMAE and at the
+later steps, for both estimators, with the documented SMM range-rate pre-weighting as the prior of the first update.
 A second family of items drives the same histories through the real ``EstimateAgent`` (serial ``update`` and the
 ``EstPredictRegistration`` / ``EstUpdateRegistration`` job path over the in-process fake ray) to check what the agent
 is handed back on closure.
@@ -53,7 +56,15 @@ RULE = (
     "M in {1,2,3(two-sensor stack),4(radar-like, drives SMM pre-weighting)} rotates with the step) is executed as a "
     "tree up to the announced depth or until closure, from pickled snapshots of the real filter/agent; after each "
     "predict and each update every clause is compared with the reference model started from the state the real "
-    "object held before the operation (one forecast probe on a copy at step 2). A tree node is non-trivial iff in "
+    "object held before the operation (one forecast probe on a copy at step 2). A second family of configurations "
+    "(obs_seq) spells out the observation SET of every step instead of rotating the shape: {r1, r2, r3 = one, two, "
+    "three observations carrying a range rate, from three different radars; ro, or = radar + optical in both "
+    "orders; ror = radar, optical, radar; o = optical only}; each of the 7 sets is the set of the step that OPENS "
+    "MMAE (real initialize(): SMM pre-weights from the range rates) for SMM and GPB1, 2/3/5 models, layouts 1s/30s, "
+    "directly and through the EstimateAgent (serial and job path), and the set index advances by 3 mod 7 per step "
+    "so that every set also occurs at every later step; on the opened SMM filter StaticMultipleModel._preWeight is "
+    "additionally probed on a pickled copy (one weight per model, documented values; these two probe cases count "
+    "as non-trivial iff the set holds >= 1 range-rate observation). A tree node is non-trivial iff in "
     "that update a model likelihood underflowed to zero or the total mass fell below 1e-15 (documented reset), or a "
     "model was pruned, or estimation closed; every elemental check at such a node counts; distinct by construction "
     "(different history or configuration). states = distinct (model ids, probabilities to 11 digits, time, flags) "
@@ -78,7 +89,10 @@ ASSUMPTIONS = [
     "counted separately in the outcomes (reset_representable_mass)",
     "for GPB1 (which merges all models every step by construction) 'the surviving model' on closure is the merged "
     "estimate (moment-matched mixture)",
-    "SMM pre-weighting |1 - e_i/sum(e)| (left unnormalised) is taken as the documented prior of the first update",
+    "SMM pre-weighting |1 - e_i/sum(e)| (left unnormalised) is taken as the documented prior of the first update; "
+    "with several observations that carry a range rate the LAST one of the list decides (source comment: 'only the "
+    "last obs is included'), observations without a range rate are skipped; a measured range rate of exactly zero "
+    "(which the implementation reads as 'no range rate') is not enumerated",
 ]
 EXPECT_MIN_NONTRIVIAL = 20000
 
@@ -98,6 +112,11 @@ LAYOUTS = ["same", "1s", "30s", "far0"]
 SYMBOLS = ["A", "B", "M", "G", "F", "0"]
 SHAPES_DIRECT = ["h2", "s21", "h4", "h1"]
 SHAPES_AGENT = ["h2", "s21", "h4"]  # the agent's filter-step recorder needs >= 2 measurement components
+# observation SETS of one step (second lattice family, "obs_seq" configurations): r = an observation that carries a
+# range rate (three different radars: own sensor id, own H / R / bias), o = one without (optical-like)
+OBS_SETS = ["r1", "r2", "r3", "ro", "or", "ror", "o"]
+OBS_STRIDE = 3  # step s of a configuration that opens on set i0 sees OBS_SETS[(i0 + 3 (s - 1)) mod 7]: 3 and 7 are
+#                 coprime, so over the 7 opening sets every set also occurs at every later step
 THRESHOLDS = [1e-20, 1e-3, 0.05, 0.6]
 PERCENTAGES = [0.6, 0.997]
 PERCENTAGES_T = [0.6, 0.997, 0.4]
@@ -222,20 +241,33 @@ _H = {
     "h4": np.array([[1.0, 0.0, 0.0, 0.0, 0.0, 0.0], [0.0, 1.0, 0.0, 0.0, 0.0, 0.0], [0.0, 0.0, 1.0, 0.0, 0.0, 0.0],
                     [0.01, 0.0, 0.0, 40.0, 0.0, 0.0]]),
     "h1": np.array([[0.5, 0.5, 0.5, 0.0, 0.0, 0.0]]),
+    # two more radars (different sensors): other position rows, other range-rate rows
+    "h4b": np.array([[0.0, 1.0, 0.0, 0.0, 0.0, 0.0], [0.0, 0.0, 1.0, 0.0, 0.0, 0.0], [1.0, 0.0, 0.1, 0.0, 0.0, 0.0],
+                     [0.0, 0.02, 0.0, 0.0, 25.0, 0.0]]),
+    "h4c": np.array([[0.5, 0.5, 0.0, 0.0, 0.0, 0.0], [0.0, 0.0, 1.0, 0.0, 0.0, 0.0], [0.0, 1.0, -0.2, 0.0, 0.0, 0.0],
+                     [0.0, 0.0, -0.015, 10.0, 0.0, 30.0]]),
 }
 _R = {
     "h2": np.array([[0.25, 0.05], [0.05, 0.16]]),
     "hz": np.array([[0.2]]),
     "h4": np.diag([0.25, 0.25, 0.25, 0.04]),
     "h1": np.array([[0.3]]),
+    "h4b": np.diag([0.3, 0.2, 0.36, 0.09]),
+    "h4c": np.array([[0.2, 0.03, 0.0, 0.0], [0.03, 0.25, 0.0, 0.0], [0.0, 0.0, 0.3, 0.0], [0.0, 0.0, 0.0, 0.0625]]),
 }
 _BIAS = {  # fixed, small "noise" so that no innovation is exactly zero
     "h2": np.array([0.11, -0.07]),
     "hz": np.array([0.05]),
     "h4": np.array([0.09, -0.04, 0.06, 0.03]),
     "h1": np.array([-0.08]),
+    "h4b": np.array([-0.06, 0.1, 0.05, -0.05]),
+    "h4c": np.array([0.04, 0.07, -0.09, 0.02]),
 }
-_PARTS = {"h2": ["h2"], "s21": ["h2", "hz"], "h4": ["h4"], "h1": ["h1"]}
+_PARTS = {"h2": ["h2"], "s21": ["h2", "hz"], "h4": ["h4"], "h1": ["h1"],
+          # observation sets of the second family (sensor ids SENSOR + position in the list)
+          "r1": ["h4"], "r2": ["h4", "h4b"], "r3": ["h4", "h4b", "h4c"], "ro": ["h4", "h2"], "or": ["h2", "h4b"],
+          "ror": ["h4", "hz", "h4c"], "o": ["h2"]}
+_RADAR_PARTS = ("h4", "h4b", "h4c")  # parts whose observation stub carries range_km / range_rate_km_p_sec
 
 
 class System:
@@ -301,6 +333,9 @@ class System:
         return out
 
     def shape(self, step):
+        seq = self.cfg.get("obs_seq")
+        if seq:  # second family: the observation set of every step is spelled out by the configuration
+            return seq[(step - 1) % len(seq)]
         shapes = SHAPES_DIRECT if self.cfg["mode"] == "direct" else SHAPES_AGENT
         return shapes[(step + self.cfg["shape_shift"]) % len(shapes)]
 
@@ -318,7 +353,7 @@ class System:
         for j, part in enumerate(_PARTS[self.shape(step)]):
             h, r = _H[part], _R[part]
             y = h @ s + _BIAS[part]
-            obs.append(LinObs(h.copy(), r.copy(), y.copy(), jd, SENSOR + j, radar=(part == "h4")))
+            obs.append(LinObs(h.copy(), r.copy(), y.copy(), jd, SENSOR + j, radar=(part in _RADAR_PARTS)))
             hs.append(h)
             rs.append(r)
             ys.append(y)
@@ -356,11 +391,16 @@ class System:
 
 
 # ------------------------------------------------------------------------------------------------ configurations
-def _cfg(kind, n, layout, thr, pp, cov, mode, mix, seed, depth, shape_shift, via_results=False):
+def _cfg(kind, n, layout, thr, pp, cov, mode, mix, seed, depth, shape_shift, via_results=False, obs_seq=None):
     # resample is fixed to the repository default (False): with sigma-point redraw the per-model gain is the subject
     # of the open C06 finding F-C06-1 (stale sigma_x_res), which this check must not re-report
     return {"kind": kind, "n": n, "layout": layout, "thr": thr, "pp": pp, "cov": cov, "resample": False,
-            "mode": mode, "mix": mix, "seed": seed, "depth": depth, "shape_shift": shape_shift, "via_results": via_results}
+            "mode": mode, "mix": mix, "seed": seed, "depth": depth, "shape_shift": shape_shift, "via_results": via_results,
+            "obs_seq": obs_seq}
+
+
+def _obs_seq(i0, depth):
+    return [OBS_SETS[(i0 + OBS_STRIDE * s) % len(OBS_SETS)] for s in range(depth)]
 
 
 def _depth(tier, n, mode, deep=False):
@@ -415,6 +455,37 @@ def configs(tier, seed):
                         for mode in modes:
                             out.append(_cfg(kind, n, layout, thr, pp, "same", mode, 1.5, seed,
                                             _depth(tier, n, mode), (k + seed) % 3))
+    # the observation-set lattice: which observations the target has on the step that opens MMAE (real initialize():
+    # SMM pre-weights from the range rates) and on the later steps - 1, 2, 3 radars, radar + optical in both orders,
+    # radar / optical / radar, optical only.  Always the real initialize() (cov "same"): the hand-assembled "scaled"
+    # variant never pre-weights.
+    k = 0
+    for kind in KINDS:
+        for n in ([2, 3, 5] if quick else [2, 3, 5, 30]):
+            for layout in (["1s", "30s"] if quick else ["1s", "30s", "far0"]):
+                for i0 in range(len(OBS_SETS)):
+                    k += 1
+                    thrs = [1e-20] if kind == "gpb1" else [[1e-20, 0.05][(k + seed) % 2]] if quick else [1e-20, 0.05]
+                    pps = [PERCENTAGES[(k // 2) % 2]] if quick else PERCENTAGES
+                    for thr in thrs:
+                        for pp in pps:
+                            depth = _depth(tier, n, "direct")
+                            out.append(_cfg(kind, n, layout, thr, pp, "same", "direct", 1.5, seed, depth, 0,
+                                            via_results=bool(k % 2), obs_seq=_obs_seq(i0, depth)))
+    for ki, kind in enumerate(KINDS):
+        for n in ([2, 3] if quick else [2, 3, 5]):
+            for li, layout in enumerate(["1s", "30s"]):
+                for i0 in range(len(OBS_SETS)):
+                    if quick and (i0 + n + li) % 2:
+                        continue  # quick: per n every opening set once, the two layouts alternating (swapped for n + 1)
+                    thr = 1e-20 if kind == "gpb1" else [1e-20, 0.05][(i0 // 2 + seed) % 2]
+                    modes = ["agent_serial", "agent_parallel"]
+                    if quick:
+                        modes = [modes[((i0 + 1) // 2 + n + ki) % 2]]
+                    for mode in modes:
+                        depth = _depth(tier, n, mode)
+                        out.append(_cfg(kind, n, layout, thr, 0.997, "same", mode, 1.5, seed, depth, 0,
+                                        obs_seq=_obs_seq(i0, depth)))
     return out
 
 
@@ -434,6 +505,13 @@ def bounds(tier, seed):
         "observation_alphabet": SYMBOLS,
         "observation_shapes_direct": SHAPES_DIRECT,
         "observation_shapes_agent": SHAPES_AGENT,
+        "observation_sets_family": {
+            "sets": {k: _PARTS[k] for k in OBS_SETS},
+            "radar_parts_carry_range_rate": list(_RADAR_PARTS),
+            "opening_step": "every set, SMM and GPB1, direct and through the EstimateAgent",
+            "later_steps": f"set index advances by {OBS_STRIDE} mod {len(OBS_SETS)} per step: every set at every step",
+            "configurations": sum(1 for c in cs if c["obs_seq"]),
+        },
         "prune_thresholds": THRESHOLDS,
         "convergence_percentages": PERCENTAGES if tier == "quick" else {"n<=3": PERCENTAGES_T, "n>3": PERCENTAGES},
         "mix_ratios": MIX_RATIOS if tier == "quick" else MIX_RATIOS_T,
@@ -492,6 +570,7 @@ class Ctx:
         self.cfg = cfg
         self.item = item
         self.hist = []
+        self.obs_set = None  # name of the observation set (shape) of the current step, None = no observation
         self.nontrivial = False
         self.base = {k: cfg[k] for k in ("kind", "n", "layout", "thr", "pp", "cov", "resample", "mode", "mix")}
 
@@ -499,6 +578,7 @@ class Ctx:
         case = dict(self.base)
         case["history"] = ".".join(self.hist)
         case["step"] = len(self.hist)
+        case["obs_set"] = self.obs_set
         if extra:
             case.update(extra)
         self.res.case(
@@ -957,11 +1037,32 @@ class AgentDriver:
 
 
 # ------------------------------------------------------------------------------------------------ the explorer
+def preweight_reference(shape, ystack, px):
+    """Documented SMM pre-weighting for the observation set ``shape`` with the stacked measurement ``ystack``:
+    w_i = |1 - e_i / sum(e)|, e_i = |measured - predicted range rate of model i| (left unnormalised), taken from ONE
+    observation - "only the last obs is included" (source comment): the last observation of the list that carries a
+    range rate; observations without one are skipped.  None when no observation of the set carries a range rate
+    (the uniform prior stays).  ``px`` = the models' predicted states."""
+    off, src = 0, None
+    for part in _PARTS[shape]:
+        if part in _RADAR_PARTS:
+            src = (part, off)
+        off += _H[part].shape[0]
+    if src is None:
+        return None
+    part, off = src
+    measured = float(ystack[off + 3])
+    if measured == 0.0:
+        raise RuntimeError("harness: a measured range rate of exactly zero reads as 'no range rate'")
+    errs = np.array([abs(measured - float(_H[part][3] @ x)) for x in px])
+    return np.abs(1.0 - errs / np.sum(errs))
+
+
 def _initial_mid(sysm, cfg, base_p, kind_n, shape=None, ystack=None):
     """State before the first update, known to the harness: hypothesis centres, common covariance, uniform priors,
     one Kalman prediction from the antecedent time (computed by the reference).  SMM.initialize pre-weights the
-    models by their agreement with a measured range rate when the first observation carries one (shape h4):
-    w_i = |1 - e_i / sum(e)|, e_i = |measured - predicted range rate of model i| (left unnormalised, as documented)."""
+    models by their agreement with a measured range rate when an observation of the opening step carries one
+    (see ``preweight_reference``)."""
     n = kind_n
     px, pp = [], []
     for i in range(n):
@@ -970,12 +1071,41 @@ def _initial_mid(sysm, cfg, base_p, kind_n, shape=None, ystack=None):
         pp.append(p)
     w = np.ones(n) / n
     preweighted = False
-    if cfg["kind"] == "smm" and shape == "h4":
-        errs = np.array([abs(float(ystack[3]) - float(_H["h4"][3] @ x)) for x in px])
-        w = np.abs(1.0 - errs / np.sum(errs))
-        preweighted = True
+    if cfg["kind"] == "smm" and shape is not None:
+        pw = preweight_reference(shape, ystack, px)
+        if pw is not None:
+            w = pw
+            preweighted = True
     return {"tags": list(range(n)), "w": w, "mu": np.ones(n) / n, "px": px, "pP": pp, "nis": None,
             "ydim": 0, "time": T_START, "preweighted": preweighted}
+
+
+def probe_preweight(ctx, sysm, mid, af, obs, shape, ystack):
+    """StaticMultipleModel._preWeight itself, on a pickled copy of the filter that the real initialize() just opened
+    (the models still hold the predictions of the opening step): one weight per model, finite, equal to the
+    documented formula over the models present; untouched when no observation carries a range rate."""
+    cp = pickle.loads(pickle.dumps(af))
+    tags = [m.verif_tag for m in cp.models]
+    before = np.array(cp.model_weights, dtype=float, copy=True)
+    n_r = sum(1 for part in _PARTS[shape] if part in _RADAR_PARTS)
+    extra = {"range_rate_observations": n_r, "observations": len(obs), "models": len(tags)}
+    try:
+        cp._preWeight(obs)  # noqa: SLF001
+    except Exception as exc:  # noqa: BLE001
+        ctx.case("preweight/raises", False, sig="preweight/raises/" + type(exc).__name__, extra=extra,
+                 observed=f"{type(exc).__name__}: {exc}"[:300], expected="_preWeight does not raise", nontrivial=n_r >= 1)
+        return
+    got = np.asarray(cp.model_weights, dtype=float)
+    want = preweight_reference(shape, ystack, [mid["px"][mid["tags"].index(t)] for t in tags])
+    if want is None:
+        want = before
+    ok_len = got.ndim == 1 and len(got) == len(tags) == cp.num_models
+    ctx.case("preweight/one_weight_per_model", ok_len, extra=extra, observed={"weights": len(got), "models": len(tags)},
+             expected="one pre-weight per model", nontrivial=n_r >= 1, outcome=f"{shape}:{n_r}_range_rates")
+    # |1 - e/sum(e)| of O(1) numbers: rounding only (REL keeps > 6 orders to any mixing of two observations' errors)
+    ok_v = ok_len and bool(np.all(np.isfinite(got))) and bool(np.all(got >= 0.0)) and _close(got, want)[0]
+    ctx.case("preweight/values", ok_v, extra=extra, observed=_brief(got), expected=_brief(want), nontrivial=n_r >= 1)
+    ctx.res.observe(got)
 
 
 def _state_key(af):
@@ -1004,6 +1134,7 @@ def explore_direct(res, cfg, item):
             ctx.hist = hist + [sym]
             ctx.nontrivial = False
             step = len(hist) + 1
+            ctx.obs_set = None if sym == "0" else sysm.shape(step)
             closed = one_step(ctx, sysm, drv, sym, step, t + DT, probe=(step == 2))
             res.transitions += 1
             visit(drv)
@@ -1015,6 +1146,7 @@ def explore_direct(res, cfg, item):
     for sym in sysm.symbols(first=True):
         drv = DirectDriver(sysm, via)
         ctx.hist = [sym]
+        ctx.obs_set = sysm.shape(1)
         ctx.nontrivial = False
         obs, hstack, rstack, ystack = sysm.observations(sym, 1, T_START)
         try:
@@ -1035,6 +1167,8 @@ def explore_direct(res, cfg, item):
             mid = _initial_mid(sysm, cfg, af._original_filter.est_p, cfg["n"], sysm.shape(1), ystack)  # noqa: SLF001
             exp = reference_update(cfg, sysm, mid, hstack, rstack, ystack)
             usable = check_update(ctx, sysm, mid, exp, af, obs, ystack, rstack)
+            if usable and cfg["kind"] == "smm" and len(af.models) >= 2:
+                probe_preweight(ctx, sysm, mid, af, obs, sysm.shape(1), ystack)
             closed = (CLOSE in af.flags) or not usable
         else:
             closed = one_step(ctx, sysm, drv, sym, 1, T_START, probe=False)
@@ -1221,6 +1355,7 @@ def explore_agent(res, cfg, item):
         x, p = np.array(flt.est_x, copy=True), np.array(flt.est_p, copy=True)
         hist = list(ctx.hist)
         ctx.hist = hist + ["post"]
+        ctx.obs_set = "h2"
         try:
             drv.predict(t)
             # an observation of the handed-back estimate's own trajectory (no new manoeuvre detection)
@@ -1246,6 +1381,7 @@ def explore_agent(res, cfg, item):
             ctx.hist = hist + [sym]
             ctx.nontrivial = False
             step = len(hist) + 1
+            ctx.obs_set = None if sym == "0" else sysm.shape(step)
             status = agent_step(drv, sym, step, t + DT)
             res.transitions += 1
             if status != "broken":
@@ -1329,6 +1465,7 @@ def _norm_cfg(cfg):
     cfg = dict(cfg)
     cfg["resample"] = bool(cfg["resample"])
     cfg["via_results"] = bool(cfg.get("via_results", False))
+    cfg["obs_seq"] = list(cfg["obs_seq"]) if cfg.get("obs_seq") else None
     return cfg
 
 
